@@ -913,6 +913,7 @@ def run(ctx):
     r.rule("C03.10", "name tests in resetInsertionMode apply to HTML-namespace elements only", floor=2)
     r.rule("C03.11", "a possibly-None return component is not passed to a parameter that is dereferenced unconditionally", floor=2)
     r.rule("C03.9", "a handler that hands the token back for reprocessing has changed the insertion mode / stack first", floor=40)
+    r.rule("C03.12", "insertion-mode transitions are the standard's (handlers rely on the skeleton their mode implies: body element, frameset, table context)", floor=120)
     r.rule("C03.6", "every phase has a concrete handler for every token kind and tag name", floor=100)
     constkey(ctx)
     recursion(ctx)
@@ -923,6 +924,8 @@ def run(ctx):
     reprocess_progress(ctx)
     html_names_need_html_namespace(ctx)
     none_argument(ctx)
+    from . import modes
+    modes.run(ctx, "C03.12")
     dispatch_total(ctx)
     from . import c03_tok
     c03_tok.run(ctx)
@@ -936,6 +939,16 @@ def thorough(ctx):
 def mutants():
     from ..selftest import TextMutant as T
     return [
+        T("mode-tr-to-cell", "html5parser.py",
+          "        self.tree.insertElement(token)\n        self.parser.phase = self.parser.phases[\"inRow\"]\n",
+          "        self.tree.insertElement(token)\n        self.parser.phase = self.parser.phases[\"inCell\"]\n", "C03.12"),
+        T("mode-afterbody-html-to-frameset", "html5parser.py",
+          "            self.parser.phase = self.parser.phases[\"afterAfterBody\"]", "            self.parser.phase = self.parser.phases[\"afterAfterFrameset\"]", "C03.12"),
+        T("mode-space-after-after-body", "html5parser.py",
+          "    def processSpaceCharacters(self, token):\n        return self.parser.phases[\"inBody\"].processSpaceCharacters(token)\n\n    def processCharacters(self, token):\n        self.parser.parseError(\"expected-eof-but-got-char\")\n        self.parser.phase = self.parser.phases[\"inBody\"]",
+          "    def processSpaceCharacters(self, token):\n        self.parser.phase = self.parser.phases[\"inBody\"]\n        return self.parser.phases[\"inBody\"].processSpaceCharacters(token)\n\n    def processCharacters(self, token):\n        self.parser.parseError(\"expected-eof-but-got-char\")\n        self.parser.phase = self.parser.phases[\"inBody\"]", "C03.12"),
+        T("mode-frameset-end-dropped", "html5parser.py",
+          "            self.parser.phase = self.parser.phases[\"afterFrameset\"]", "            pass", "C03.12"),
         T("phase-key-typo", "html5parser.py", 'self.parser.phase = self.parser.phases["afterAfterFrameset"]',
           'self.parser.phase = self.parser.phases["afterAfterFramset"]', "C03"),
         T("tokentype-typo", "html5parser.py", '{"type": tokenTypes["Characters"], "data": prompt}',
